@@ -19,6 +19,7 @@ CONSTANTS
   UntypedDedup = FALSE
   DeriveFrom <- NoDerive
   DeriveForget = FALSE
+  PartialFlush = FALSE
   SnapFirst = FALSE
 VIEW View
 INVARIANTS TypeOK AllRecoverable AfterCleanPrune
